@@ -1,10 +1,13 @@
 """C03 - decoded genotypes follow nearest-mutation inheritance and missing-data rules."""
 LEVEL = "other"
-EXPLANATION = ("Proved: tsk_variant_visit (sets exactly that genotype, reports whether it was missing) and tsk_variant_mark_missing (over the ghost root list of the C01 well-formedness: exactly the roots without children that are in the sample index map become MISSING, every other genotype unchanged). Bounded: variants(), Variant.decode() in arbitrary site order, genotype_matrix with user "
+EXPLANATION = ("Proved: tsk_variant_visit (sets exactly that genotype, reports whether it was missing) and tsk_variant_mark_missing (over the ghost root list of the C01 well-formedness: exactly the roots without children that are in the sample index map become MISSING, every other genotype unchanged) and tsk_variant_update_genotypes_sample_list (the default decoding path: exactly the samples in the stretch of the sample list between left_sample[node] and right_sample[node] take the derived allele, every other genotype is unchanged, every index followed stays inside the sample arrays - over a ghost position function along next_sample). Bounded: variants(), Variant.decode() in arbitrary site order, genotype_matrix with user "
                "alleles and haplotypes() are compared with nearest-mutation inheritance recomputed from the table columns over "
-               "seeded small tree sequences x sample subsets (incl. non-sample nodes) x isolated_as_missing. The kernels of "
-               "genotypes.c are not under contract yet; the tree positions the decoder seeks to are proved under C06.")
-C_FUNCS = [("genotypes.c", "tsk_variant_visit"), ("genotypes.c", "tsk_variant_mark_missing")]
+               "seeded small tree sequences x sample subsets (incl. non-sample nodes) x isolated_as_missing. The other kernels of "
+               "genotypes.c (decode itself calls through function pointers, which the generator does not follow) are not "
+               "under contract; the tree positions the decoder seeks to are proved under C06.")
+C_FUNCS = [("genotypes.c", "tsk_variant_visit"), ("genotypes.c", "tsk_variant_mark_missing"),
+           ("genotypes.c", "tsk_variant_update_genotypes_sample_list")]
 BOUNDED = [{"name": "genotypes_vs_tables", "module": "standins.c03_genotypes", "timeout": 900, "asan": "thorough"}]
-UNVERIFIED = ["tsk_variant_decode, tsk_variant_update_genotypes_sample_list, tsk_variant_traverse, tsk_variant_get_allele_index, allele expansion (bounded only)"]
-ASSUMPTIONS = []
+UNVERIFIED = ["tsk_variant_decode (indirect calls), tsk_variant_traverse, tsk_variant_get_allele_index, allele expansion (bounded only)"]
+ASSUMPTIONS = ["the sample list is well formed (next_sample moves one ghost position on, positions are unique and lie in "
+               "[0, num_samples), the stretch of a node is contiguous): maintained by tsk_tree_update_sample_lists, which is not verified"]
